@@ -43,7 +43,7 @@ fn tal_swap_history(words: &[u16], hp: &HistProfile) -> Scenario {
 }
 
 pub fn run(ctx: &Ctx, rep: &mut Report, replay: Option<&serde_json::Value>) {
-    rep.rule("(a) E-rpki histories of 2-3 runs in which a TAL file is replaced by one carrying a different key while the repository, the local rsync copy or only the store still hold the trust anchor certificate for the old key (with unreachable modules and offline runs): nothing of that TAL may be served; (b) E-rpki single-run scenarios from an empty cache: 1-2 TALs, up to 7 CAs over 3 rsync modules, 0-5 objects per CA (ROA v4/v6, ASPA, router cert, GBR), faults from a closed catalogue on CA certificates, manifests/CRLs and objects, config knobs varied; every object owns a unique slot; oracle = reference model (DESIGN Appendix A), soundness direction: every served item must belong to a valid object under an accepted chain; non-trivial = >=1 fault and >=1 valid payload item elsewhere; distinct by serialised scenario");
+    rep.rule("(a) E-rpki histories of 2-3 runs in which a TAL file is replaced by one carrying a different key while the repository, the local rsync copy or only the store still hold the trust anchor certificate for the old key (with unreachable modules and offline runs): nothing of that TAL may be served; (a2) histories of 2-4 runs with abandoned (incomplete) updates over stored versions, as in C03; (b) E-rpki single-run scenarios from an empty cache: 1-2 TALs, up to 7 CAs over 3 rsync modules, 0-5 objects per CA (ROA v4/v6, ASPA, router cert, GBR), faults from a closed catalogue on CA certificates, manifests/CRLs and objects, config knobs varied; every object owns a unique slot; oracle = reference model (DESIGN Appendix A), soundness direction: every served item must belong to a valid object under an accepted chain; non-trivial = >=1 fault and >=1 valid payload item elsewhere; distinct by serialised scenario");
     rep.assume("the reference model's fault catalogue has a single consequence per fault (Appendix A); objects are issued with rpki's own builders over a committed RSA key pool");
     let profile = Profile::default();
     ctx.shrink_iters.store(150, std::sync::atomic::Ordering::Relaxed);
@@ -69,6 +69,16 @@ pub fn run(ctx: &Ctx, rep: &mut Report, replay: Option<&serde_json::Value>) {
             i.class("tal_rekeyed_after_store");
         }
         v
+    });
+    // histories over a persistent cache with abandoned (incomplete) updates, stale and rolled-back versions:
+    // nothing of a version that was not accepted may reach the data set (C03-C05 own the details)
+    let hp3 = crate::c03::profile();
+    run_prop_par(ctx, rep, "history", ctx.tier.pick(64, 1500), 8, || genome(260).prop_map({
+        let hp3 = hp3.clone();
+        move |w| history_run(&w, &hp3)
+    }), |sc, i| {
+        i.class("multi_run_history");
+        judge_scenario("C01", sc, i, true, false)
     });
     let p = profile.clone();
     run_prop_par(ctx, rep, "single", ctx.tier.pick(320, 8000), 16, || genome(160).prop_map({
